@@ -50,8 +50,9 @@ checks = (a.checks or pid).split(",")
 res["checks"] = {}
 for c in checks:
     t0 = time.time()
-    r = subprocess.run(["./check", c], cwd="/verif", env=dict(os.environ, VERIF_REPO=work), capture_output=True, text=True)
+    r = subprocess.run(["./check", c], cwd="/verif", env=dict(os.environ, VERIF_REPO=work, VERIF_EVIDENCE_DIR=work + "_evidence"), capture_output=True, text=True)
     viol = [l for l in r.stdout.splitlines() if l.startswith("VIOLATION")]
     clauses = sorted({cl for l in viol for cl in l.split("clauses=")[-1].split(",")})
     res["checks"][c] = {"exit": r.returncode, "violations": len(viol), "clauses": clauses[:12], "wall_s": round(time.time() - t0, 1)}
+shutil.rmtree(work + "_evidence", ignore_errors=True)
 print(json.dumps(res, indent=1))
